@@ -9,18 +9,18 @@ from vlib.workers import ALL, WorkerDied, WorkerSet
 
 PROPERTY = "C07"
 LEVEL = "exploration"
-RACE_INTERPS = ["3.11", "3.12"]
+RACE_INTERPS = ALL
 RULE = ("Blocked leg (CPython 3.9-3.12): Hypothesis-generated thread bodies of call depth 1..6 with 0-3 nested with blocks "
         "per frame (single and multi-item, inside try/finally), each level calling inward by a plain / returned / *args / **kwargs call, (plus one thread whose stack is 300 frames deeper than the recursion limit in force when it is inspected), the thread being a Thread(target=...), a Thread subclass, a Timer or a thread started through _thread (dummy Thread object), blocked on an Event at the innermost level or with the innermost level itself blocked in a C callable (lock.acquire, same four call forms); oracle = shadow call "
         "log: harness frames of extract(thread) equal it outermost first with contexts equal to each frame's managers, all "
         "frames equal the thread's f_back chain, threading internals hidden; unstarted / finished threads give no frames and no "
-        "error. Racing leg (3.11, 3.12; guarded yield points): three scripted target threads plus Hypothesis-generated scripts (with / for / try-finally over gates) (nested and multi-item with "
+        "error. Racing leg (3.9-3.12; guarded yield points, which the 3.9 / 3.10 inspector has had since its repair): three scripted target threads plus Hypothesis-generated scripts (with / for / try-finally over gates, a quarter of the gates followed by a raise that takes the frame out through its blocks) (nested and multi-item with "
         "blocks, a loop re-entering the same with at the same instruction position with different managers, try/finally, a "
         "generator-owned frame) whose every step ends at a gate; the inspector calls extract(thread), extract_since(frame), "
         "lowlevel.contexts_active_in_frame(frame) or inspect_frame(frame); schedules <gates passed before the call, dynamic index "
         "j of the yield point reached inside inspect_frame (the last of them between the completed snapshot and the walk over the exception table) / unwrap_thread / the other-thread search, number k of gates the "
         "target then passes - including 'returns from the frame', 'thread finishes' and 'finishes and a new thread is started'> "
-        "are enumerated; plus a randomised stress run with a 1 microsecond switch interval. Oracle (racing): the worker does not "
+        "are enumerated; plus randomised stress runs with a 1 microsecond switch interval in three variants: a thread looping over with blocks; a thread whose frames keep being left by an exception that passes through with blocks (which restores the f_lasti of the raising instruction); short-lived threads that finish, and whose stacks are freed, while they are inspected. Oracle (racing): the worker does not "
         "die, the call does not raise, no reported frame belongs to the inspector or the decoy thread, and the contexts "
         "reported for the scripted frame are consistent with ONE instruction position (each manager was created for the line "
         "its context names, the nesting is one that is active at a single position, loop managers belong to one iteration) - or "
@@ -52,7 +52,8 @@ def bodies():
 
 def scripts():
     """generated racing scripts: with (1-2 items) / for / try-finally over gates, nesting <= 3"""
-    gate = st.just({"t": "gate"})
+    # (xgate: a gate followed by `raise`: from there the frame is left by an exception that passes through its blocks)
+    gate = st.sampled_from([{"t": "gate"}, {"t": "gate"}, {"t": "gate"}, {"t": "xgate"}])
 
     def ext(ch):
         blk = st.lists(ch, min_size=1, max_size=3)
@@ -154,12 +155,14 @@ def shard(arg):
                 out.violation(v["desc"], {"cell": [fail["case"]["script"], fail["case"]["api"], fail["case"]["nadv"]],
                                           "ks": fail["case"]["ks"]}, v["interp"], obs=v.get("obs"), flaky=fail["flaky"])
         if arg.get("stress"):
-            for interp in RACE_INTERPS:
+            for interp, variant in [(i, v) for i in RACE_INTERPS for v in ("loop", "exception", "short_lived")]:
+                n_it = arg["stress"] if variant == "loop" else max(50, arg["stress"] // 4)
                 try:
-                    res = ws[interp].request({"op": "threads.stress", "iterations": arg["stress"]}, timeout=600)
+                    res = ws[interp].request({"op": "threads.stress", "iterations": n_it, "variant": variant}, timeout=600)
                 except WorkerDied as ex:
-                    out.violation("interpreter %s DIED (exit %r) in the stress run" % (interp, ex.returncode),
-                                  {"stress": arg["stress"]}, interp)
+                    out.violation("interpreter %s DIED (exit %r) in the stress run (%s)" % (interp, ex.returncode, variant),
+                                  {"stress": arg["stress"], "variant": variant}, interp)
+                    ws[interp].start()
                     continue
                 for k, v in res.get("stats", {}).items():
                     out.extra[k] = out.extra.get(k, 0) + v
